@@ -110,6 +110,13 @@ CLAIMED["C07"] = (
     "DESIGN.md section 3, C07",
 )
 
+CLAIMED["C01"] = (
+    "structural rules on the failure-DNF translator: type-flow set of rule kinds (SSA MakeInterface census) vs dispatch switch, SSA store analysis of Negate methods, syntax-level De Morgan / implication / cross-product rules, slice-aliasing rule, complement decision procedure on instantiated literal pairs, operator-table agreement",
+    "The propositional skeleton of the translation (and/or/not/if-then-else over atoms) is correct iff a handful of structural facts hold, each decided for the translator itself and hence for every profile: exhaustive dispatch, information-preserving Negate with De Morgan, dual generators for negated connectives, conjunction-by-concatenation never applied under a negated conditional, condition negated in exactly one implication, cross product built from fresh slices, no operand dropped between YAML and generation, complementary literal twins in every atomic generator, operator words bound to the comparators they name, one result per atom. Breaking any of them makes some truth assignment of the atoms come out wrong.",
+    "Declined and left to the golden tests / trusted base: the orientation of each atom, Rego's semantics of each atom over data, and multi-valued atoms under negation (documented limitation). " + TRUST,
+    "DESIGN.md section 3, C01",
+)
+
 # properties without a check yet (or declined), with the reason
 NOT_APPLICABLE = {
 }
